@@ -113,11 +113,18 @@ def run_history(nc0: int, pend0: int, h: list, key, rng):
         return orig_post(path, params=params, json=json, timeout=timeout)
     node.post = post
 
+    unfilled = {}
+
     def build(l, n):
-        g = roots.setdefault(l, client.operation_group())
-        for i in range(n):
-            g = g.transaction(destination=DEST, amount=1 + i)
-        return g
+        """the unfilled n-content group of lineage l: ONE object per (l, n), reused by every later fill/autofill/send of that
+        lineage and size, and extended from the (l, n-1) object via .transaction() (the content dicts are shared) — filling must
+        not write into the unfilled original"""
+        if (l, 0) not in unfilled:
+            unfilled[(l, 0)] = roots.setdefault(l, client.operation_group())
+        for i in range(1, n + 1):
+            if (l, i) not in unfilled:
+                unfilled[(l, i)] = unfilled[(l, i - 1)].transaction(destination=DEST, amount=i)
+        return unfilled[(l, n)]
 
     for idx, c in enumerate(h):
         kind = c[0]
@@ -476,6 +483,10 @@ FIXED = [
     (10, 0, [('Fill', 0, 2), ('Fill', 0, 2), ('Inject', 0, True), ('Inject', 1, True)]),
     (10, 1, [('Autofill', 0, 1, True), ('Autofill', 0, 1, True), ('Inject', 0, True), ('Inject', 1, True)]),
     (17, 0, [('Autofill', 0, 1, True), ('Autofill', 1, 1, True), ('Bulk', [0, 1], 7, True), ('Inject', 2, True)]),
+    # the same unfilled group object (and an extension of it) sent again after the node moved on
+    (10, 0, [('Autofill', 0, 1, True), ('Inject', 0, True), ('Bake',), ('Autofill', 0, 1, True), ('Inject', 1, True)]),
+    (10, 0, [('Send', 0, 1, True), ('Bake',), ('Send', 0, 2, True), ('Bake',), ('Fill', 0, 2), ('Inject', 2, True)]),
+    (126, 0, [('Fill', 1, 2), ('Inject', 0, True), ('Bake',), ('Send', 1, 2, True), ('Send', 1, 3, False), ('Bake',), ('Send', 1, 3, True)]),
     (17, 3, [('Fill', 0, 2), ('Autofill', 1, 1, True), ('Bulk', [0, 1], 7, True), ('Sign', 2), ('Inject', 2, True)]),
     (126, 2, [('Autofill', 0, 1, True), ('Inject', 0, True), ('Autofill', 1, 2, True), ('Inject', 1, True)]),
     (18, 0, [('SendAsync', 0, 1, True, 0), ('Send', 0, 1, True)]),
